@@ -232,18 +232,21 @@ class Ctx:
                 shutil.rmtree(r.dir, ignore_errors=True)
             return s, o
 
-        res = {"n": 0, "bad": [], "hits": {}}
+        res = {"n": 0, "bad": [], "hits": {}, "nbad": 0}
         t = time.time()
         with cf.ThreadPoolExecutor(par) as ex:
             for s, o in ex.map(one, chunks):
                 res["n"] += o["n"]
+                res["nbad"] += o.get("nbad", len(o.get("bad", [])))
                 for b in o.get("bad", []):
                     b["i"] = b["i"] + s
                     res["bad"].append(b)
                 for k, v in (o.get("hits") or {}).items():
                     res["hits"][k] = res["hits"].get(k, 0) + v
         self.cov["traces_validated_against_impl"] += res["n"]
-        log("validated %d cases with %s in %.1fs: %d rejected" % (res["n"], module, time.time() - t, len(res["bad"])))
+        if res["nbad"] > len(res["bad"]):
+            log("note: %d deviations counted, %d kept (per-run cap)" % (res["nbad"], len(res["bad"])))
+        log("validated %d cases with %s in %.1fs: %d rejected" % (res["n"], module, time.time() - t, res["nbad"]))
         return res
 
     # ------------------------------------------------------------------ verdicts
@@ -265,10 +268,38 @@ class Ctx:
 
 
 def load_known():
-    p = os.path.join(VERIF, "known_findings.json")
-    if not os.path.exists(p):
-        return {"known": [], "fixed": []}
-    return json.load(open(p))
+    """known_findings.json plus (while a property is being built) known_findings.d/*.json."""
+    res = {"known": [], "fixed": []}
+    paths = [os.path.join(VERIF, "known_findings.json")]
+    d = os.path.join(VERIF, "known_findings.d")
+    if os.path.isdir(d):
+        paths += sorted(os.path.join(d, f) for f in os.listdir(d) if f.endswith(".json"))
+    for p in paths:
+        if os.path.exists(p):
+            o = json.load(open(p))
+            res["known"] += o.get("known", [])
+            res["fixed"] += o.get("fixed", [])
+    return res
+
+
+def evidence_dir():
+    """Evidence of runs against a scratch copy (VERIF_REPO, mutant self-tests) never overwrites the real evidence."""
+    if os.environ.get("VERIF_EVIDENCE_DIR"):
+        return os.environ["VERIF_EVIDENCE_DIR"]
+    if os.path.realpath(REPO) != "/repo":
+        return os.path.join(tempfile.gettempdir(), "verif-evidence-alt")
+    return os.path.join(VERIF, "evidence")
+
+
+def known_match(kset, key):
+    """exact match, or a known entry whose locus is an fnmatch pattern (systematic defects)"""
+    import fnmatch
+    if key in kset:
+        return True
+    for k in kset:
+        if k[:3] == key[:3] and any(ch in k[3] for ch in "*?") and fnmatch.fnmatchcase(key[3], k[3]):
+            return True
+    return False
 
 
 def wsize(w):
@@ -290,15 +321,16 @@ def finish(ctx, confirm=None, level="model_checking"):
     unknown, hit = [], []
     for key in sorted(groups):
         g = groups[key]
-        if key in kset:
+        if known_match(kset, key):
             hit.append(key)
             print("KNOWN-FINDING: property=%s %s %s %s e.g. %s (%d cases this run)" % (
                 key[0], key[1], key[2], key[3], json.dumps(g["best"]["witness"])[:160], g["n"]))
         else:
             unknown.append((key, g))
     nviol, unconfirmed = 0, []
-    os.makedirs(os.path.join(VERIF, "replays"), exist_ok=True)
-    for key, g in unknown[:40]:
+    rdir = os.path.join(VERIF, "replays") if os.path.realpath(REPO) == "/repo" else os.path.join(evidence_dir(), "replays")
+    os.makedirs(rdir, exist_ok=True)
+    for key, g in unknown[:12]:
         r = g["best"]
         ok = True
         if confirm is not None:
@@ -312,14 +344,14 @@ def finish(ctx, confirm=None, level="model_checking"):
             continue
         nviol += 1
         h = hashlib.sha1(json.dumps(key).encode()).hexdigest()[:10]
-        path = os.path.join(VERIF, "replays", "%s-%s.json" % (ctx.prop, h))
+        path = os.path.join(rdir, "%s-%s.json" % (ctx.prop, h))
         json.dump({"property": ctx.prop, "api": r["api"], "kind": r["kind"], "locus": r["locus"],
                    "witness": r["witness"], "case": r["case"], "detail": r["detail"], "tier": ctx.tier,
                    "seed": ctx.seed, "cases_in_group": g["n"]}, open(path, "w"), indent=1)
         print("VIOLATION property=%s replay=%s" % (ctx.prop, path))
         print("  api=%s kind=%s locus=%s witness=%s" % (r["api"], r["kind"], r["locus"], json.dumps(r["witness"])[:300]))
-    if len(unknown) > 40:
-        log("%d further unknown violation groups not confirmed individually" % (len(unknown) - 40))
+    if len(unknown) > 12:
+        log("%d further unknown violation groups not confirmed individually" % (len(unknown) - 12))
     cov = ctx.cov
     cov["known_findings_hit"] = [" ".join(k[1:]) for k in hit]
     cov["violation_groups"] = [" ".join(k[1:]) for k, _ in unknown]
@@ -330,8 +362,8 @@ def finish(ctx, confirm=None, level="model_checking"):
         raise Infra("no TLC states recorded: the check did not run the model checker")
     ev = {"property_id": ctx.prop, "tier": ctx.tier, "seed": ctx.seed, "level": level, "coverage": cov,
           "assumptions": ctx.assumptions, "wall_s": round(time.time() - ctx.t0, 1), "violations": nviol}
-    os.makedirs(os.path.join(VERIF, "evidence"), exist_ok=True)
-    json.dump(ev, open(os.path.join(VERIF, "evidence", ctx.prop + ".json"), "w"), indent=1)
+    os.makedirs(evidence_dir(), exist_ok=True)
+    json.dump(ev, open(os.path.join(evidence_dir(), ctx.prop + ".json"), "w"), indent=1)
     log("%s %s: %d TLC states, %d impl traces, %d evaluations, %d deviating cases in %d groups (%d known), %.1fs" % (
         ctx.prop, ctx.tier, cov["states"], cov["traces_validated_against_impl"], cov["evaluations"],
         len(ctx.records), len(groups), len(hit), time.time() - ctx.t0))
